@@ -75,6 +75,4 @@ def run(chk):
 
 def replay(chk, path):
     case = json.load(open(path))
-    soup, o = D.observe_doc(case['input'], case.get('skip_envs', ()))
-    print(json.dumps({'outcome': o['o'], 'args': args_of(soup.expr, []) if soup else None}))
-    return 0
+    return D.replay_case(chk, case, 'C09-attachment')
